@@ -1,17 +1,17 @@
 package checks
 
 import (
-	"net"
-	"time"
 	"bytes"
 	"encoding/binary"
 	"errors"
 	"fmt"
 	"io"
 	"math/rand/v2"
+	"net"
 	"strings"
 	"sync"
 	"testing"
+	"time"
 
 	webtrans "github.com/zishang520/engine.io/v2/webtransport"
 
@@ -27,7 +27,11 @@ type closeRec struct {
 }
 
 func (c *closeRec) add(code int) { c.mu.Lock(); c.codes = append(c.codes, code); c.mu.Unlock() }
-func (c *closeRec) get() []int   { c.mu.Lock(); defer c.mu.Unlock(); return append([]int(nil), c.codes...) }
+func (c *closeRec) get() []int {
+	c.mu.Lock()
+	defer c.mu.Unlock()
+	return append([]int(nil), c.codes...)
+}
 
 // wtHeader parses a frame header at the start of b.
 func wtHeader(b []byte) (ok, bin bool, n uint64, hlen int) {
